@@ -63,9 +63,8 @@ def gen_cases(ctx):
             pg = gen.random_pg(rng, cls, n_range=big if rng.random() < 0.3 else (2, 9), alphabet=rng.choice([gen.TINY, gen.SMALL, gen.WIDE]), p_none=0.0, allow_empty=False)
         m = gen.random_bijection(rng, pg)
         yield {"kind": "variant", "cls": cls, "pg": pg_to_json(pg), "variant": c01.VARIANTS[j % len(c01.VARIANTS)], "bseed": rng.randrange(1 << 30), "idmap": [[a, b] for a, b in m.items()]}
-    for k, nsz in enumerate(gen.SCALE_SIZES[ctx.tier]):
-        for c, cls in enumerate(CLASS_NAMES):
-            yield {"kind": "variant", "cls": cls, "scale": nsz, "gseed": rng.randrange(1 << 30), "variant": ("rebuild", "derived", "relabel_copy", "relabel_inplace")[(k + c) % 4], "bseed": rng.randrange(1 << 30)}
+    for k, nsz, cls, seed in gen.scale_specs(ctx, rng):
+        yield {"kind": "variant", "cls": cls, "scale": nsz, "gseed": seed, "variant": ("rebuild", "derived", "relabel_copy", "relabel_inplace", "derived")[k % 5], "bseed": seed // 3}
     # process part: hash seeds are spread over the shards
     seeds = list(range(1, 5)) if ctx.tier == "quick" else [*range(1, 31), 4294967295, "random"]
     for k, hs in enumerate(seeds):
